@@ -35,7 +35,7 @@ var (
 	// LenGrid are the content lengths around the buffer boundaries of the code.
 	LenGrid = []int{0, 1, 2, 17, 511, 512, 2047, 2048, 2049, 4095, 4096, 4097, 32767, 32768, 32769, 65535, 65536, 65537, 100000}
 	// HostileKeys are keys with awkward byte contents.
-	HostileKeys = []string{"a", "ab", "abc", "k/with/slash", "../dotdot", "nul\x00byte", "юникод-ключ", "日本語", " ", "\n", "file/", "fileContent/x", string(make([]byte, 1000)), "\xff\xfe\xfd", strings.Repeat("K", 5000), strings.Repeat("long-key/", 7800), "a" + strings.Repeat("é", 60), strings.Repeat("é", 47) + "日本", "ab" + strings.Repeat("ключ", 30)}
+	HostileKeys = []string{"a", "ab", "abc", "k/with/slash", "../dotdot", "nul\x00byte", "юникод-ключ", "日本語", " ", "\n", "file/", "fileContent/x", string(make([]byte, 1000)), "\xff\xfe\xfd", strings.Repeat("K", 5000), strings.Repeat("long-key/", 7800), "a" + strings.Repeat("é", 60), strings.Repeat("é", 47) + "日本", "ab" + strings.Repeat("ключ", 30), "reports/2024%2F10", "100%d%s%v%w%!"}
 )
 
 type genState struct {
